@@ -2,7 +2,7 @@
    Only property theorems here; proofs are in Proofs/PoolHP.v (on top of RwcP, RepeatP). *)
 From Coq Require Import ZArith List Permutation.
 From Dyce Require Import Base.Sums Base.Order Base.Hist Base.Brute Base.QcOrd Model.Select Model.Pool
-  Proofs.RwcP Proofs.PoolHP.
+  Proofs.RwcP Proofs.PoolHP Exec.Run Proofs.QcInstanceP.
 Import ListNotations.
 
 Section C03.
@@ -74,6 +74,18 @@ Theorem C03_relabel_decreasing : forall {T} (O : ord T) g p F,
   pbsum O (map (relabel g) p) F = pbsum O p (fun l => F (rev (map g l))).
 Proof. exact @pbsum_relabel_decr. Qed.
 Print Assumptions C03_relabel_decreasing.
+
+(* the same theorem for exactly the functions the correspondence check evaluates (outcomes Qc with
+   their addition): no hypothesis about outcome arithmetic is left *)
+Theorem C03_selective_sum_exact_executable_instance : forall p w idx, okpool VO p -> p <> [] -> w <> [] ->
+  resolve (length p) w = Ok idx ->
+  exists r, p_h VO Vzero Vadd Vmulz p (Some w) = Ok r /\
+    (idx = [] -> r = []) /\
+    (idx <> [] -> forall z, cnt VO r z =
+        pbsum VO p (fun l => if eqb VO (tsum Vzero Vadd (getitems l idx)) z then 1 else 0)%Z) /\
+    (idx <> [] -> total r = ptotal p).
+Proof. exact p_h_correct_Qc. Qed.
+Print Assumptions C03_selective_sum_exact_executable_instance.
 
 Example C03_nonvacuous :
   exists r, p_h VO (qc 0 1) Qcanon.Qcplus (fun z x => Qcanon.Qcmult (Vz z) x)
